@@ -298,6 +298,12 @@ def iovRegions (m : Mem) (iovs : Nat) : Nat → Nat → List (Nat × Nat)
     if iovs + 8 * i + 8 ≤ m.size then (le32 m (iovs + 8 * i), le32 m (iovs + 8 * i + 4)) :: iovRegions m iovs cnt (i + 1)
     else []
 
+/-- the buffers of the iovec array that `readv` can hand to the reader: those inside the memory -/
+def iovWritable (m : Mem) (iovs iovsStop : Nat) : List Wr :=
+  ((iovRegions m iovs (min (iovsStop / 8) (m.size / 8 + 1)) 0).filter (fun r => m.has r.1 r.2)).map
+    (fun r => Wr.region r.1 r.2)
+
+
 /-- some readable, non-empty iovec buffer overlaps the iovec array itself: what is read into it may change the
 entries that `readv` reads next (F62) -/
 def iovAliased (m : Mem) (iovs iovsStop : Nat) : Bool :=
@@ -314,8 +320,7 @@ def fdReadCommon (fixedRead : Bool) (rd : Reader) (m : Mem) (iovs iovsCount res 
     -- as-is, with host-chosen data read into a buffer that covers later entries: the next reads go wherever that
     -- data says (inside the memory)
     if !fixedRead && iovAliased m iovs iovsStop then { err := .any, acc := acc, writes := [Wr.region 0 m.size] } else
-    { err := .any, acc := acc,
-      writes := (iovRegions m iovs (min (iovsStop / 8) (m.size / 8 + 1)) 0).map (fun r => Wr.region r.1 (min r.2 m.size)) ++ [Wr.region res 4] }
+    { err := .any, acc := acc, writes := iovWritable m iovs iovsStop ++ optRegion m res 4 }
   | _ =>
     let (src, en) := match rd with
       | .stream s => (s, false)
